@@ -24,6 +24,6 @@ impl Rng {
     /// text without NUL, mixing 1..4-byte UTF-8 sequences
     pub fn text(&mut self, max_chars: usize) -> String {
         let n = self.below(max_chars as u64 + 1) as usize;
-        (0..n).map(|_| *self.pick(&['a', 'Z', 'é', '€', '0', ' ', '😀', '\u{7f}', '\u{80}', '\u{7ff}', '\u{800}', '\u{ffff}', '\u{10000}', '\u{10ffff}', '\u{1}', '\u{fffd}', '\n', '\t'])).collect()
+        (0..n).map(|_| *self.pick(&['a', 'Z', 'é', '€', '0', ' ', '😀', '\u{7f}', '\u{80}', '\u{7ff}', '\u{800}', '\u{ffff}', '\u{10000}', '\u{10ffff}', '\u{1}', '\u{fffd}', '\n', '\t', '\u{feff}'])).collect()
     }
 }
